@@ -185,6 +185,10 @@ class LoadsProxy(object):
 
 
 def run_config(cfg, res):
+  # random bytes can spell LONG_BINPUT with a huge index, which makes CPython's unpickler allocate gigabytes (a pickle
+  # bomb: a hang, not an exception, hence outside this property); an address-space limit turns it into a MemoryError
+  import resource
+  resource.setrlimit(resource.RLIMIT_AS, (4 << 30, 4 << 30))
   from vlib import boot
   ns = boot.boot('carbon-cache', {'USE_INSECURE_UNPICKLER': bool(cfg.get('insecure'))})
   from twisted.internet.testing import StringTransport
